@@ -94,9 +94,17 @@ def check(ctx):
     classifier_total(ctx, "R04-d")
 
     # ---- R04-e visibility definition ---------------------------------------------------------------------------------
-    vis = ctx.fn("CancelScope._parent_cancellation_is_visible_to_us", A)
+    if not ctx.repo.has_func("CancelScope._parent_cancellation_is_visible_to_us", A):
+        # the property was inlined by hand: its definition is then the conjunction spelled out at the use sites, which the fact
+        # domain maps back to the predicate (facts.DEFINED); the rules on the use sites (R04-c, R05-b, R02-e) are unchanged
+        ctx.ob("R04-e", ctx.fn("CancelScope.__exit__", A), "visible parent cancellation = has parent and not shielded and parent effectively cancelled",
+               True, by=("inlined at its use sites (facts.DEFINED)",))
+        vis = None
+    else:
+        vis = ctx.fn("CancelScope._parent_cancellation_is_visible_to_us", A)
     from .common import truth_table
-    truth_table(ctx, "R04-e", vis, {"parent": ["self._parent_scope is not None"], "shield": ["self.shield", "self._shield"],
+    if vis is not None:
+        truth_table(ctx, "R04-e", vis, {"parent": ["self._parent_scope is not None"], "shield": ["self.shield", "self._shield"],
                                     "parent_cancelled": ["self._parent_scope._effectively_cancelled"]},
                 # without a parent the third atom cannot even be evaluated: the answer must be False whatever it is
                 lambda v: v["parent"] and not v["shield"] and v["parent_cancelled"],
